@@ -4,6 +4,21 @@
 open Model
 open Util
 
+(* the directory locks (LockTable model): directory names are numbered, every Open attempt is a new handle *)
+let locks : ((n * n) list) ref = ref []
+let dir_ids : (string, int) Hashtbl.t = Hashtbl.create 4
+let next_handle = ref 0
+let cur_handle : (string, int) Hashtbl.t = Hashtbl.create 4
+let dir_id (name : string) : n =
+  n_of_int (match Hashtbl.find_opt dir_ids name with Some i -> i | None -> let i = Hashtbl.length dir_ids in Hashtbl.replace dir_ids name i; i)
+let lock_attempt (name : string) (fails : bool) : lres * int =
+  incr next_handle;
+  let h = !next_handle in
+  let (t, r) = lstep !locks (LOpen (n_of_int h, dir_id name, fails)) in
+  locks := t; (r, h)
+let lock_close (h : int) = let (t, _) = lstep !locks (LClose (n_of_int h)) in locks := t
+
+
 type t = {
   mutable cfg : cfg;
   mutable db : db option;
@@ -23,7 +38,8 @@ let create () : t =
     disks = Hashtbl.create 4; iter = None; all_events = [] }
 let reset (s : t) =
   s.cfg <- default_cfg; s.db <- None; s.disk <- empty_disk; s.batch <- None; s.cur <- "db";
-  Hashtbl.reset s.disks; s.iter <- None; s.all_events <- []
+  Hashtbl.reset s.disks; s.iter <- None; s.all_events <- [];
+  locks := []; Hashtbl.reset dir_ids; Hashtbl.reset cur_handle
 
 let fname_str = function
   | FData id -> "D" ^ string_of_n id
@@ -212,11 +228,34 @@ let exec (s : t) (verbose : bool) (f : string array) (obs : string option) : str
     s.cfg <- c;
     if Array.length f > 7 then begin
       Iter_driver.kind := int_of_string f.(6); Iter_driver.shards := int_of_string f.(7) end;
-    (match db_open c s.disk with
-     | (OpenOk (d, k), evs) -> s.db <- Some d; s.disk <- k; "ok" ^ events_str evs
-     | (OpenErr (e, k), evs) -> s.disk <- k; "err " ^ eerr_name e ^ events_str evs)
+    (match lock_attempt s.cur false with
+     | (LInUse, _) -> "err inuse"
+     | (_, h) ->
+       Hashtbl.replace cur_handle s.cur h;
+       (match db_open c s.disk with
+        | (OpenOk (d, k), evs) -> s.db <- Some d; s.disk <- k; "ok" ^ events_str evs
+        | (OpenErr (e, k), evs) -> lock_close h; s.disk <- k; "err " ^ eerr_name e ^ events_str evs))
+  | "open2" | "openchild" ->
+    (match lock_attempt s.cur false with
+     | (LInUse, _) -> "err inuse"
+     | (_, h) ->
+       (* the directory was free: the other process opens it and closes it again *)
+       let c = { c_fsize = n_of_string f.(2); c_sync = n_of_string f.(3); c_bps = n_of_string f.(4);
+                 c_io = n_of_string f.(5) } in
+       lock_close h;
+       (match db_open c s.disk with
+        | (OpenOk (d, k), _) -> let (k2, _) = db_close d k in s.disk <- k2; "ok"
+        | (OpenErr (e, k), _) -> s.disk <- k; "err " ^ eerr_name e))
+  | "openbad" ->
+    (match lock_attempt s.cur true with
+     | (LInUse, _) -> "err inuse"
+     | (LFailed, _) -> "err failed"
+     | (_, h) -> lock_close h; "ok")
+  | "openrace" -> "done"
+  | "probeclose" -> ""
   | "close" ->
     let (k, evs) = db_close (get_db s) s.disk in
+    (match Hashtbl.find_opt cur_handle s.cur with Some h -> lock_close h | None -> ());
     s.db <- None; s.disk <- k; s.batch <- None;
     "ok" ^ events_str ~sorted:true evs
   | "put" ->
